@@ -18,6 +18,7 @@ SPECIFICATION Spec
 INVARIANT BookkeepingOK
 INVARIANT HistFormattable
 INVARIANT FormatIsCurrent
+INVARIANT ExposedAsWritten
 INVARIANT NormalFormHist
 INVARIANT EmitHist
 CHECK_DEADLOCK FALSE
